@@ -53,6 +53,47 @@ def Arr.items (a : Arr) : List (List Nat) := gather a.storage a.itemsize a.shape
 def Arr.inBounds (a : Arr) : Bool :=
   a.strides.length == a.shape.length && a.items.all (fun it => it.length == a.itemsize)
 
+/-! ### the bounds checks of the constructors
+
+`np.ndarray(shape, dtype, buffer, offset, strides)` (numpy `array_new` -> `PyArray_CheckStrides` ->
+`offset_bounds_from_strides`) and `torch.as_strided` (`checkInBoundsForStorage`) refuse a
+description whose extreme corners fall outside the buffer. -/
+
+/-- numpy's `offset_bounds_from_strides` without the final `upper += itemsize`: the sum of the
+    negative and of the positive axis extents `stride_i * (shape_i - 1)` -/
+def spanBounds : List Nat → List Int → Int × Int
+  | n :: ns, st :: sts =>
+    let r := spanBounds ns sts
+    let ext := st * ((n : Int) - 1)
+    if ext > 0 then (r.1, r.2 + ext) else (r.1 + ext, r.2)
+  | _, _ => (0, 0)
+
+/-- the lowest and the highest item address both lie inside the storage -/
+def Arr.spanOk (a : Arr) : Bool :=
+  let r := spanBounds a.shape a.strides
+  decide (0 ≤ (a.offset : Int) + r.1 ∧ (a.offset : Int) + r.2 + a.itemsize ≤ a.storage.length)
+
+/-- `np.ndarray(shape, dtype, buffer=storage, offset=offset, strides=strides)` is accepted:
+    `len(strides) == len(shape)` and `PyArray_CheckStrides(itemsize, nd, numbytes = len(buffer),
+    offset, dims, strides)` -- whose `if (numbytes == 0) numbytes = prod(dims) * itemsize` makes an
+    EMPTY buffer pass for the array's own nominal size; a zero-size array has the bounds `(0, 0)`.
+    For rank 0 the empty `strides` tuple counts as "no strides" and the plain size check
+    `offset + itemsize <= len(buffer)` applies. -/
+def Arr.npCheck (a : Arr) : Bool :=
+  let numbytes : Int := if a.storage.length = 0 then (prod a.shape * a.itemsize : Nat) else a.storage.length
+  let r := spanBounds a.shape a.strides
+  let lohi : Int × Int := if a.shape.any (· == 0) then (0, 0) else (r.1, r.2 + a.itemsize)
+  a.strides.length == a.shape.length &&
+    (if a.shape = [] then decide (a.offset + a.itemsize ≤ a.storage.length)
+     else decide (lohi.2 ≤ numbytes - a.offset ∧ -(a.offset : Int) ≤ lohi.1))
+
+/-- `torch.as_strided(flat, shape, strides, offset)` is accepted (in bytes): no negative stride, and
+    unless the view is empty the last item ends inside the storage -/
+def Arr.torchCheck (a : Arr) : Bool :=
+  a.strides.length == a.shape.length && a.strides.all (0 ≤ ·) &&
+    (a.shape.any (· == 0) ||
+      decide ((a.offset : Int) + (spanBounds a.shape a.strides).2 + a.itemsize ≤ a.storage.length))
+
 /-- the little-endian bytes of the VALUE an item holds (`astype(dtype.newbyteorder('<'))`) -/
 def leItem (be cplx : Bool) (it : List Nat) : List Nat :=
   if !be then it
